@@ -139,4 +139,29 @@ var props = map[string]Prop{
 			har("tuples", "./harness/c03", "TestC03Tuples", true, 12000, 1000000, 8, 16),
 		},
 	},
+	"C10": {
+		ID: "C10", Level: "exploration",
+		Rule: "runtime/internal/runtime/z_chan.go is copied verbatim from the working tree into a scratch module whose clite and pthread/sync imports are stand-ins that hand every Lock/Unlock/Wait/Signal/Broadcast to a deterministic scheduler; rapid draws a script (1-3 channels of capacity 0-2, 2-4 threads x 1-4 operations: send, receive, close (one closer per channel), len, blocking select and non-blocking select with 1-4 cases incl. nil channels and repeated channels) and every scheduling decision (next thread, which waiter a Signal wakes, up to 3 spurious wake-ups; uniform or PCT-style priorities). A monitor checks over the history: tokens received were sent, once, on that channel, in per-(sender,receiver) FIFO order; completed sends <= cap + started receives; ok=true receives <= started sends; ok=false only under close, with zero value, never overtaking tokens sent before the close; sends after a completed close never succeed; no pthread misuse; and at quiescence no blocked operation is enabled in the Go channel model (lost wake-up). Non-trivial: >= 2 context switches. Distinct by (script, steps, switches).",
+		Assumptions: []string{
+			"schedules are sampled (uniform and priority-based) at lock/wait/signal granularity, not enumerated",
+			"the stand-in mutex/condvar implement POSIX semantics including what POSIX leaves open (which waiter wins, spurious wake-ups)",
+			"the compiled artefact is not involved here: this decides the algorithm in z_chan.go as written",
+		},
+		Jobs: []Job{
+			{Name: "schedules", Kind: "lift", Pkg: "./internal/runtime", Run: "TestVerifC10", Lift: []LiftFile{{Src: "runtime/internal/runtime/z_chan.go", Dst: "internal/runtime/z_chan.go"}},
+				Checks: [2]int{100000, 3000000}, Shards: [2]int{8, 16}, Timeout: [2]time.Duration{10 * min, 60 * min}},
+		},
+	},
+	"C11": {
+		ID: "C11", Level: "exploration",
+		Rule: "runtime/internal/lib/runtime/sema_llgo.go is copied from the working tree (without //go:linkname lines) into the stand-in module; its pthread mutex/cond/once and its atomics are scheduling points of the deterministic scheduler. (1) semaphores: 2-4 threads x 1-4 semaAcquire/semaRelease on 1-2 addresses with initial counts 0-2; invariants: completed acquires <= initial + started releases, a release never blocks, at quiescence nobody is blocked in acquire while the count is positive. (2) notify lists: threads shaped like sync.Cond (ticket = Add, then Wait(ticket)) against NotifyOne/NotifyAll at arbitrary points; invariants: Wait(t) returns only if a started NotifyAll can cover t or enough NotifyOne calls were started, and at quiescence no waiter whose ticket is already covered (notify > ticket) is still blocked. Scheduling choices (next thread, which waiter a Signal wakes, spurious wake-ups, PCT priorities) are rapid draws. Non-trivial: >= 2 context switches; distinct by (script, steps, switches).",
+		Assumptions: []string{
+			"schedules are sampled, not enumerated; fairness (every waiter eventually admitted) is checked only in its safety form (no waiter left blocked at quiescence although its wake-up condition holds)",
+			"the compiled sync.Mutex/RWMutex/WaitGroup/Once/Cond/atomic stress programs are a separate job (when built)",
+		},
+		Jobs: []Job{
+			{Name: "sema", Kind: "lift", Pkg: "./internal/lib/runtime", Run: "TestVerifC11", Lift: []LiftFile{{Src: "runtime/internal/lib/runtime/sema_llgo.go", Dst: "internal/lib/runtime/sema_llgo.go", DropLinkname: true}},
+				Checks: [2]int{60000, 2000000}, Shards: [2]int{8, 16}, Timeout: [2]time.Duration{10 * min, 60 * min}},
+		},
+	},
 }
